@@ -581,17 +581,26 @@ def condition_context_rule(run, R="SYM"):
     (every branch in it and in its closures is on an enum discriminant: node kind, Option, iterator protocol) - a test on a value
     (a nesting level, a name) would skip some symbols, and `..k` in a condition would stop meaning what it means on the next line"""
     f = run.anchor(R, "asm::resolver::directive_if::resolve_ifs")
-    g = run.anchor(R, "asm::resolver::directive_if::symbol_ctx_at")
-    if f is None or g is None:
+    if f is None:
         return
-    sites = [(bi, t) for bi, t in f.calls() if (t.get("resolved") or t.get("callee") or "") == g.id]
-    ok1 = len(sites) == 1
-    if ok1:
-        ev = [(bi, t) for bi, t in f.calls() if re.search(r"(eval_certain|eval_simple|eval_with_ctx|EvalContext)", t.get("resolved") or t.get("callee") or "")]
-        from rules_mpt import source_chain
-        ok1 = any(any("symbol_ctx_at" in str(x) for x in source_chain(f, a)) for bi, t in ev for a in t["args"] if op_place(a) is not None)
-    run.check(ok1, R, R + "|condition-context|handed-on", f.loc(), "resolve_ifs asks symbol_ctx_at for the context of the block's position and hands it to the evaluation of the condition",
-              "resolve_ifs does not evaluate the condition under the context of symbol_ctx_at: dotted names in a condition would be looked up from somewhere else than names on the next line")
+    from rules_mpt import source_chain
+    ev = [(bi, t) for bi, t in f.calls() if re.search(r"(eval_certain|eval_simple|eval_with_ctx)", t.get("resolved") or t.get("callee") or "")]
+    # the helper is found by its role, not its name: the function of this crate answering a SymbolContext whose result reaches
+    # the evaluation of the condition
+    g = None
+    for bi, t in f.calls():
+        h = run.prog.fn(t.get("resolved") or t.get("callee") or "")
+        if h is not None and (h.ret or "").endswith("SymbolContext") and h.kind in ("Fn", "AssocFn") and not h.id.endswith("::new_global"):
+            nm = h.id.rsplit("::", 1)[-1]
+            if any(any(nm in str(x) for x in source_chain(f, a)) for _, t2 in ev for a in t2["args"] if op_place(a) is not None):
+                g = h
+    if g is None:
+        # selection written in place: the context handed on must at least be some symbol's own context
+        ok0 = any(".ctx" in str(deep(f, a, 10)) for _, t2 in ev for a in t2["args"])
+        run.check(ok0, R, R + "|condition-context|handed-on", f.loc(), "resolve_ifs evaluates the condition under the context of a preceding symbol (selection written in place; its shape is not decided)",
+                  "resolve_ifs does not evaluate the condition under a symbol's context: dotted names in a condition would be looked up from somewhere else than names on the next line")
+        return
+    run.ok(R, R + "|condition-context|handed-on", f.loc(), "resolve_ifs asks %s for the context of the block's position and hands it to the evaluation of the condition" % g.id.rsplit("::", 1)[-1])
     fam = [h for h in run.prog.real_fns() if h.id == g.id or h.id.startswith(g.id + "::{closure")]
     bad, n = [], 0
     for h in fam:
